@@ -151,6 +151,21 @@ func (e *Eng) specBuiltin(x *ast.CallExpr, c *ctx) (Val, bool) {
 				panic("spec: dyntypeis: unknown type " + tn)
 			}
 			return Val{K: KBool, T: e.dynTypeIs(v, t)}, true
+		case "bytes":
+			// bytes(s): the byte sequence of a string, as a slice value without a heap cell
+			v := e.eval(x.Args[0], c)
+			e.declOnce("(declare-fun bofs (Str) (Array Int Int))")
+			e.declOnce("(assert (forall ((s Str) (i Int)) (! (= (select (bofs s) i) (sat s i)) :pattern ((select (bofs s) i)))))")
+			n := "(slen " + v.T + ")"
+			return Val{K: KSlice, Ref: "(- 7)", Off: "0", Len: n, Cap: n, Row: "(bofs " + v.T + ")", GoT: types.NewSlice(types.Typ[types.Uint8])}, true
+		case "entry":
+			// entry(e): value of e when the enclosing loop was entered
+			if c.loopOld == nil {
+				panic("spec: entry() outside a loop invariant")
+			}
+			nc := *c
+			nc.st = c.loopOld
+			return e.eval(x.Args[0], &nc), true
 		case "str":
 			// str(bytes): the string with the contents of a byte slice
 			v := e.eval(x.Args[0], c)
